@@ -63,13 +63,36 @@ func validateJSONPatches(patches []byte) error {
 			return fmt.Errorf("%s: invalid path", patch.JSONPatch)
 		}
 
-		if strings.HasPrefix(path, "/"+document.ServiceProperty) {
-			return fmt.Errorf("%s: cannot modify services", patch.JSONPatch)
+		if err := validateJSONPointer(path); err != nil {
+			return err
 		}
 
-		if strings.HasPrefix(path, "/"+document.PublicKeyProperty) {
-			return fmt.Errorf("%s: cannot modify public keys", patch.JSONPatch)
+		// move and copy also read (and move removes) the location named by 'from'
+		fromMsg, ok := p["from"]
+		if !ok {
+			continue
 		}
+
+		var from string
+		if err := json.Unmarshal(*fromMsg, &from); err != nil {
+			return fmt.Errorf("%s: invalid from", patch.JSONPatch)
+		}
+
+		if err := validateJSONPointer(from); err != nil {
+			return err
+		}
+	}
+
+	return nil
+}
+
+func validateJSONPointer(pointer string) error {
+	if strings.HasPrefix(pointer, "/"+document.ServiceProperty) {
+		return fmt.Errorf("%s: cannot modify services", patch.JSONPatch)
+	}
+
+	if strings.HasPrefix(pointer, "/"+document.PublicKeyProperty) {
+		return fmt.Errorf("%s: cannot modify public keys", patch.JSONPatch)
 	}
 
 	return nil
